@@ -247,6 +247,7 @@ pub fn digest(files: &std::collections::HashMap<&'static str, String>) -> Value 
               json!({"name": fd["name"], "refs": refs, "dur": ty.contains("chrono::Duration"), "opt": ty.starts_with("Option<"),
                 "nested": fa.iter().any(|a| a.starts_with("validate(") && (a.contains("(nested") || a.contains(",nested"))),
                 "len": fa.iter().any(|a| a.starts_with("validate(") && a.contains("length(")),
+                "validated": fa.iter().any(|a| a.starts_with("validate(")),
                 // `#[serde_as(as = "Option<…>")]`: does the adapter wrap in Option (must agree with the member type)
                 "asOpt": fa.iter().any(|a| a.starts_with("serde_as(") && a.contains("as=\"Option<")),
                 "serdeAsAttr": fa.iter().any(|a| a.starts_with("serde_as(")),
